@@ -33,7 +33,7 @@ class Adapter(EnvAdapter):
         ctor = dict(grid_size=6, num_agents=2, num_food=1, fov=6, max_agent_level=2, force_coop=True, grid_observation=False,
                     normalize_reward=True, penalty=0.5)
         sweep = [dict(id=f"g6a2f1_t{t}_sweep", ctor=dict(ctor, time_limit=t), episodes=1, max_steps=t + 2,
-                      policies=["idle"], probe_every=0, props=["C03", "C11"]) for t in ts]
+                      policies=["idle"], probe_every=0, props=["C01", "C03", "C11", "C12"]) for t in ts]
         return base + sweep
 
     def _base_configs(self, tier):
